@@ -231,6 +231,12 @@ Definition emit_entry (mc : option method_config) : gen_result :=
   | inr (ri, t) => GenOk (render ri t)
   end.
 
+(* the table row of a method as the transports print it.  [internal] is whether selective generation
+   (generate_omitted_as_internal) made the rpc an internal _method of the client: Method.with_internal_methods only
+   flips that flag, the retry and timeout found for the rpc stay with it, so the row does not depend on it. *)
+Definition row_of (internal : bool) (cfg : list method_config) (service method : string) : gen_result :=
+  emit_entry (lookup cfg service method).
+
 Definition method_info (cfg : list method_config) (service method : string) : gen_error + (option retry_info * option Q) :=
   entry_info (lookup cfg service method).
 
